@@ -1,8 +1,10 @@
 #!/bin/sh
-# usage: mutcheck.sh <patch> <prop> [tier]   -- apply a seeded change to /repo, run the check, undo.
+# usage: mutcheck.sh <patch> <prop> [tier]
+# Runs a check against a seeded change WITHOUT touching /repo: the patch is applied in a scratch worktree of /repo
+# and the harness imports that tree through PYTHONPATH (which takes precedence over /venv's editable install).
 patch="$1"; prop="$2"; tier="${3:-quick}"
-git -C /repo apply "$patch" || exit 3
-cd /verif && ./check "$prop" --tier "$tier" 2>&1 | tail -4
-rc=$?
-git -C /repo checkout -- .
-git -C /repo status --short | head -3
+wt="/tmp/mutcheck.$$"
+git -C /repo worktree add -q --detach "$wt" || exit 3
+git -C "$wt" apply "$patch" || { git -C /repo worktree remove --force "$wt"; exit 3; }
+cd /verif && PYTHONPATH="$wt/Lib" ./check "$prop" --tier "$tier" 2>&1 | tail -4
+git -C /repo worktree remove --force "$wt"
